@@ -67,7 +67,7 @@ def strategy(tier):
         st.integers(2, 4),
         st.booleans(),
         st.lists(op, max_size=maxlen),
-        st.one_of(st.none(), st.lists(st.integers(0, 3), min_size=1, max_size=4)),
+        st.one_of(st.none(), st.lists(st.integers(0, 5), min_size=1, max_size=4)),
     )
 
 
